@@ -18,7 +18,7 @@ ID = "C06"
 LEVEL = "exploration"
 
 CANON = {"kind": "table", "polar": False, "f": "frequency", "a": "real", "b": "imaginary", "case": "lower", "neg_a": "", "neg_b": "",
-         "unit": "none", "order": "f-first", "sep": ",", "dec": ".", "rows": "desc", "sweeps": 1, "n": 3, "seed": 1, "window": "same"}
+         "unit": "none", "order": "f-first", "sep": ",", "dec": ".", "rows": "desc", "sweeps": 1, "n": 3, "seed": 1, "window": "same", "whole": "none"}
 CANON_POLAR = dict(CANON, polar=True, a="magnitude", b="phase")
 _ST: Dict[str, Any] = {}
 
@@ -46,6 +46,18 @@ def make_sweeps(case: dict) -> List[List[Tuple[float, complex]]]:
             if case["rows"] == "asc":
                 factor = 1.0 / factor
             sw = [(f * factor ** k, z) for f, z in sw]
+        whole = case.get("whole", "none")
+        if whole != "none":
+            # whole-number cells (written without a fractional part): frequencies on a decade grid and/or integer-valued parts
+            def W(x, i):
+                r = float(round(x))
+                return r if r != 0 else (float(i + 1) if x >= 0 else -float(i + 1))
+            top = max(len(sw) - 1, 1)
+            sw = [((10.0 ** (top - i) if whole in ("f", "all") else f),
+                   complex(W(z.real, i) if whole in ("re", "all") else z.real, W(z.imag, i) if whole == "all" else z.imag))
+                  for i, (f, z) in enumerate(sw)]
+            if win != "same" and k and whole in ("f", "all"):
+                sw = [(f * factor ** k, z) for f, z in sw]
         if case["rows"] == "asc":
             sw = list(reversed(sw))
         out.append(sw)
@@ -57,21 +69,23 @@ def emit(case: dict):
     sweeps = make_sweeps(case)
     if case["kind"] == "table":
         txt = F.table(sweeps, polar=case["polar"], f_alias=case["f"], a_alias=case["a"], b_alias=case["b"], case=case["case"],
-                      neg_a=case["neg_a"], neg_b=case["neg_b"], unit=case["unit"], order=case["order"], sep=case["sep"], decimal=case["dec"])
+                      neg_a=case["neg_a"], neg_b=case["neg_b"], unit=case["unit"], order=case["order"], sep=case["sep"], decimal=case["dec"],
+                      ints=case.get("whole", "none") != "none")
         if txt is None:
             return None
         ext = case.get("ext", ".csv")
         return "t" + ext, txt, "utf-8", (1e-9 if case["polar"] else 1e-11), sweeps  # pandas' float conversion is not round-trip exact (~1e-13)
     lay = case["layout"]
+    dec = case.get("dec", ".")
     if lay == "mpt":
-        name, txt, enc, rtol = F.mpt(sweeps)
+        name, txt, enc, rtol = F.mpt(sweeps, dec)
         return name, txt, enc, rtol, sweeps
     sw = sweeps[0]
     if lay == "dta-drift":
         name, txt, enc, rtol = F.dta(sw, True)
         return name, txt, enc, rtol, [[(f, z * 1.5) for f, z in sw], sw]
     fn = {"i2b": F.i2b, "P00": F.p00, "dfr": F.dfr, "z": F.zplot, "dta": F.dta}[lay]
-    name, txt, enc, rtol = fn(sw)
+    name, txt, enc, rtol = fn(sw, dec) if lay in ("P00", "dfr") else fn(sw)
     return name, txt, enc, rtol, [sw]
 
 
@@ -174,13 +188,13 @@ def responsible_features(case: dict, kind: str, st) -> Tuple[dict, List[str]]:
     """Greedy reduction towards the canonical table while the same kind of failure persists."""
     if case["kind"] != "table":
         c = dict(case)
-        for k, v in (("n", 3), ("rows", "desc"), ("window", "same"), ("sweeps", 1)):
+        for k, v in (("n", 3), ("rows", "desc"), ("window", "same"), ("dec", "."), ("sweeps", 1)):
             if c.get(k, v) != v and not (k == "sweeps" and c["layout"] != "mpt"):
                 c2 = dict(c)
                 c2[k] = v
                 if outcome(c2, st)[0] == kind:
                     c = c2
-        feats = [f"layout={c['layout']}"] + [f"{k}={c[k]}" for k, v in (("n", 3), ("rows", "desc"), ("window", "same"), ("sweeps", 1)) if c.get(k, v) != v]
+        feats = [f"layout={c['layout']}"] + [f"{k}={c[k]}" for k, v in (("n", 3), ("rows", "desc"), ("window", "same"), ("dec", "."), ("sweeps", 1)) if c.get(k, v) != v]
         return c, feats
     base = CANON_POLAR if case["polar"] else CANON
     c = dict(case)
@@ -288,10 +302,15 @@ def cases(thorough: bool) -> List[dict]:
             if n == 1 and sweeps > 1:
                 continue  # consecutive one-point sweeps are not a sweep structure
             for window in (("same", "away", "toward") if sweeps > 1 and (thorough or (neg_a == "" and unit == "none")) else ("same",)):
-                k += 1
-                out.append(dict(base, neg_a=neg_a, neg_b=neg_b, unit=unit, order=order, rows=rows, sweeps=sweeps, n=n, sep=sep, dec=dec, seed=k % 50,
-                                a=("z'" if not polar else "|z|"), b=("z''" if not polar else "phz"), f="freq",
-                                ext=".txt" if k % 4 == 0 else ".csv", window=window))
+                for whole in (("none", "f", "re", "all") if (thorough or (neg_a == "" and unit == "none" and window == "same")) else ("none",)):
+                    if whole != "none" and window == "toward":
+                        continue   # shifted decade grids would coincide at the sweep boundary
+                    if polar and whole in ("re", "all"):
+                        continue   # whole-number real parts next to tiny imaginary parts are ill-conditioned in modulus/phase form
+                    k += 1
+                    out.append(dict(base, neg_a=neg_a, neg_b=neg_b, unit=unit, order=order, rows=rows, sweeps=sweeps, n=n, sep=sep, dec=dec, seed=k % 50,
+                                    a=("z'" if not polar else "|z|"), b=("z''" if not polar else "phz"), f="freq",
+                                    ext=".txt" if k % 4 == 0 else ".csv", window=window, whole=whole))
     # (3) the table printed by the CLI is itself such a file
     for n, sweeps, rows, (sep, dec) in itertools.product((1, 2, 7), (1, 2), ("desc", "asc"), [(",", "."), ("\t", ","), (";", ",")]):
         if n == 1 and sweeps > 1:
@@ -306,7 +325,8 @@ def cases(thorough: bool) -> List[dict]:
                         continue
                     for seed in ((1, 2, 3) if thorough else (1,)):
                         for window in (("same", "away", "toward") if sweeps > 1 else ("same",)):
-                            out.append({"kind": "instrument", "layout": lay, "n": n, "rows": rows, "sweeps": sweeps, "seed": seed, "window": window})
+                            for dec in ((".", ",") if lay in ("mpt", "P00", "dfr") else (".",)):
+                                out.append({"kind": "instrument", "layout": lay, "n": n, "rows": rows, "sweeps": sweeps, "seed": seed, "window": window, "dec": dec})
     return out
 
 
@@ -316,10 +336,10 @@ def run(ctx) -> None:
     ctx.rule = ("delimited tables: every (frequency alias x real alias x imaginary alias) and (frequency x modulus x phase alias) triple x "
                 "letter case x separator/decimal-mark combination, with negation markers (none, '-', unicode minus), unit suffix, column order "
                 "(f first / f last / unrelated extra column), row order, 1-3 sweeps (over the same window, or each sweep shifted away from / toward the "
-                "first sweep's start) and 1/2/3/7 points rotating in quick and crossed in "
+                "first sweep's start), whole-number cells written without a fractional part (frequency column / real column / all columns) and 1/2/3/7 points rotating in quick and crossed in "
                 "thorough; plus the full product of those structural switches with fixed aliases (cartesian and polar, .csv and .txt); the CSV "
                 "table printed by `pyimpspec parse` fed back to parse_data; instrument layouts .mpt (1-3 sweeps), .i2b, .P00, .dfr, .z, .dta "
-                "(decimal commas; with and without drift-corrected columns) x 1/2/3/7 points x row order. Excluded by the documented detection "
+                "(decimal commas; with and without drift-corrected columns; .mpt/.P00/.dfr also with decimal commas) x 1/2/3/7 points x row order. Excluded by the documented detection "
                 "contract: decimal comma with comma separator, header text containing the separator. Spectra span 12 decades with both signs.")
     ctx.exhaustive = True
     ctx.assumptions = ["parsing without a file extension is not checked: the brute-force parser order depends on set iteration order",
@@ -334,7 +354,7 @@ def run(ctx) -> None:
 
 
 def replay(case: dict) -> list:
-    st = setup()
+    st = dict(setup(), tmp=tempfile.mkdtemp(prefix="vf_c06r_"))   # replays run concurrently: each gets its own scratch directory
     try:
         return run_case(case, st)[0]
     finally:
